@@ -14,7 +14,8 @@ SPIN_KEY = "spin-through-outofspace-redirect"
 
 def work(job):
     import refine
-    prog, prop = job
+    prog, prop = job[0], job[1]
+    wdroot = job[2] if len(job) > 2 else os.path.join(common.VERIF, "scratch", f"cstage-{prop.lower()}")
     args = ["-O1"] + prog["args"]
     r = refine.refine(prog["src"], args, timeout=25)
     out = {"name": prog["name"], "status": r["status"], "detail": r.get("detail", ""), "word": r.get("word"),
@@ -56,7 +57,7 @@ def work(job):
     if prog.get("c_stage") and out["status"] in ("closed", "closed-relaxed"):
         # end to end: the real generated C against the runtime model of the same machine
         import rtdiff, random
-        wd = os.path.join(common.VERIF, "scratch", f"cstage-{prop.lower()}", str(os.getpid()))
+        wd = os.path.join(wdroot, str(os.getpid()))
         cargs = args + (["-findirect-start-ptr"] if "-fyield-support" not in args else [])
         try:
             st, diffs = rtdiff.walk_diffs(prog, cargs, wd, random.Random(prog["name"]))
@@ -87,9 +88,12 @@ def collect(pid, progs):
     k = max(1, len(progs) // (60 if common.tier() == "quick" else 400))
     for i, p in enumerate(progs):
         p.setdefault("c_stage", i % k == 0)
-    with mp.Pool(min(14, os.cpu_count() or 4)) as pool:
-        results = pool.map(work, [(p, pid) for p in progs], chunksize=2)
-    shutil.rmtree(os.path.join(common.VERIF, "scratch", f"cstage-{pid.lower()}"), ignore_errors=True)
+    wdroot = os.path.join(common.VERIF, "scratch", f"cstage-{pid.lower()}-{os.getpid()}")   # (unique per run)
+    try:
+        with mp.Pool(min(14, os.cpu_count() or 4)) as pool:
+            results = pool.map(work, [(p, pid, wdroot) for p in progs], chunksize=2)
+    finally:
+        shutil.rmtree(wdroot, ignore_errors=True)
     return results
 
 
